@@ -14,7 +14,7 @@ CONSTANTS
   OnExcChoices = {TRUE, FALSE}
   PreForceChoices = {TRUE, FALSE}
   XfDecChoices = {TRUE, FALSE}
-  StepOps = {"upcall", "addCleanup", "addDetail", "expect", "patch", "useFixture"}
+  StepOps = {"upcall", "addCleanup", "addDetail", "expect", "expectok", "patch", "useFixture"}
   AllowMulti = TRUE
   Variant = "asRequired"
   UndoOf <- MCUndoOf
